@@ -411,6 +411,55 @@ def run(tier, seed):
                                   describe(fn, c.ops[1]), sorted(describe_fact(fn, x) for x in fs if M.strip(x[1]) == ("v", c.id))),
                               function=fn.cname, obj="short-read@%s" % (k if k is not None else "i"))
         rep.extra["input_callback_sites"] = nsites
+
+        # ---- R6 failed bit reads are not data ---------------------------------------------------------------------------------------
+        # The bit-level readers report the end of the input by a negative result.  Decoding from such a result (as a length, an offset, a
+        # table index, a literal) produces bytes the stream never contained - and which bytes depends on where the input happened to end,
+        # i.e. on the read schedule.  Every use of a result other than testing it, merging it or handing it on as one's own result must
+        # lie behind a fact that excludes the failure value.
+        from ..loops import READ_LIKE, refutes_exhausted
+        rid = rep.rule("R6", "results of read_bits / read_bit / read_from_tree / read_code / read_length_value / read_offset_code / peek_bits are used as data only behind a fact "
+                             "that excludes their failure value", 40)
+        BITS = {k for k, pats in READ_LIKE.items() if pats == [("slt", 0)] and k not in ("getchar", "getc", "read_next_entry")}
+        nuse = 0
+        for fn in mod.defined():
+            if not (fn.file.endswith("_decoder.c") or fn.file.endswith("tree_decode.c") or fn.file.endswith("bit_stream_reader.c") or fn.file.endswith("pma_common.c")
+                    or "/lib/" in fn.file or fn.file.startswith("lib/") or fn.file.startswith("./")):
+                continue
+            M6 = None
+            for c in fn.insts():
+                if c.op != "call" or mod.callee_cname(c) not in BITS:
+                    continue
+                cn = mod.callee_cname(c)
+                M6 = M6 or Matcher(fn)
+                F6 = ctx.facts(fn)
+                # values that are the result itself: through widenings and phis
+                carriers = {c.id}
+                work = [c.id]
+                uses = []
+                while work:
+                    vid = work.pop()
+                    for u in fn.users(vid):
+                        if u.op in ("zext", "sext", "trunc", "bitcast", "phi") :
+                            if u.id not in carriers:
+                                carriers.add(u.id)
+                                work.append(u.id)
+                        elif u.op == "icmp" or u.op == "ret" or u.op == "switch":
+                            continue
+                        elif u.op == "select" and u.ops and u.ops[0] != ("v", vid):
+                            if u.id not in carriers:
+                                carriers.add(u.id)
+                                work.append(u.id)
+                        else:
+                            uses.append(u)
+                for u in uses:
+                    nuse += 1
+                    fs = F6.at_inst(u)
+                    ok = any(refutes_exhausted(M6, fs, v, cn) for v in carriers)
+                    rep.check(rid, ok, "%s: result of %s at line %s is used by `%s` only behind a fact excluding failure" % (fn.cname, cn, c.line(), u.op), u.where(),
+                              None if ok else "the value may be the failure result (-1): what is decoded from it depends on where the input ended",
+                              function=fn.cname, obj="unchecked-%s-%d" % (cn, nuse))
+        rep.extra["bit_read_uses"] = nuse
     return rep.finish(seed)
 
 
